@@ -104,3 +104,652 @@ Proof.
   - apply ci_root; auto. simpl. destruct (Nat.eqb_spec key p); auto. subst; congruence.
   - eapply ci_step; eauto. simpl. destruct (Nat.eqb_spec key p); auto. subst; congruence.
 Qed.
+
+(* ---------- mounts(): availability of the chain ---------- *)
+Lemma skipn_app_len {A} (l E : list A) : skipn (length l) (l ++ E) = E.
+Proof. induction l; simpl; auto. Qed.
+
+Ltac msplit := match goal with |- _ /\ _ => split; [|msplit] | _ => idtac end.
+
+Lemma mounts_of_spec cbad s sn ck :
+  exists E, shrink s (fst (mounts_of cbad s sn ck)) E /\
+    dirs (fst (mounts_of cbad s sn ck)) = dirs s /\ mounts (fst (mounts_of cbad s sn ck)) = mounts s /\
+    Forall is_check E /\
+    (snd (mounts_of cbad s sn ck) = RMounts (mount_shape sn) \/ snd (mounts_of cbad s sn ck) = RErr EUnavail) /\
+    (forall m, snd (mounts_of cbad s sn ck) = RMounts m -> forall k, ck = Some k ->
+       forall n i, on_chain (meta s) k n i -> l_remote (i_labels i) = true ->
+         mounted s (i_id i) = true /\ ~ In (i_id i) cbad /\ In (EvCheck (i_id i) true) E) /\
+    (forall id, In (EvCheck id false) E -> snd (mounts_of cbad s sn ck) = RErr EUnavail).
+Proof.
+  unfold mounts_of. destruct ck as [k|].
+  2:{ exists []. split; [apply shrink_refl|]. simpl. msplit; auto.
+      - intros m _ k Q. discriminate.
+      - intros id []. }
+  unfold check_avail. destruct (closed s).
+  { exists []. split; [apply shrink_refl|]. simpl. msplit; auto.
+    intros m Q. discriminate. }
+  destruct (check_chain_spec cbad (fuel_of s) s k) as [E [Sh [D [M [F [T N]]]]]].
+  destruct (check_chain (fuel_of s) cbad s k) as [s1 ok] eqn:CC. simpl in *.
+  exists E. destruct ok; simpl; msplit; auto.
+  - intros m _ k0 Q. inversion Q; subst. apply T; auto.
+  - intros id H. specialize (N id H). discriminate.
+  - intros m Q. discriminate.
+Qed.
+
+(* ---------- the shape of every Prepare ---------- *)
+Definition created (s : st) (k : kind) (key : name) (parent : option name) (l : labels) : st :=
+  mkSt (async s) ((key, mkI (S (seq s)) k parent l) :: meta s) (S (seq s))
+       (DId (S (seq s)) :: rm_dirent (fresh_dir s :: dirs s) (fresh_dir s)) (S (tmpc s)) (mounts s) false (log s).
+
+Definition P0 (s : st) (d : dirent) : Prop := exists id, d = DId id /\ seq s < id.
+
+Lemma prepare_cases s key parent l mok cbad :
+  let s' := fst (do_prepare s key parent l mok cbad) in
+  let r := snd (do_prepare s key parent l mok cbad) in
+  (exists e E, r = RErr e /\ shrink s s' E /\ selfd (P0 s) E /\
+               (forall id, In (DId id) (dirs s) -> id <= seq s -> In (DId id) (dirs s')) /\
+               (forall x, In x (mounts s) -> fst x <= seq s -> In x (mounts s')) /\
+               create_snapshot s KActive key parent l = (s', inl e))
+  \/
+  (exists sn, create_snapshot s KActive key parent l = (created s KActive key parent l, inr sn) /\
+     let s1 := created s KActive key parent l in
+     let id := S (seq s) in
+     ( (exists s2, ((l_target l = None /\ s2 = s1) \/ (l_target l <> None /\ mok = false /\ s2 = fs_mount s1 id l false)) /\
+                   s' = fst (mounts_of cbad s2 sn parent) /\ r = snd (mounts_of cbad s2 sn parent))
+       \/ (exists t, l_target l = Some t /\ mok = true /\ lookup (meta s1) t = None /\ r = RTargetExists /\
+             s' = emit (set_meta (fs_mount s1 id l true)
+                                 ((t, mkI id KCommitted parent (set_remote l)) :: del (meta s1) key)) (EvRemoteCommit id))
+       \/ (exists t j, l_target l = Some t /\ mok = true /\ lookup (meta s1) t = Some j /\ r = RTargetExists /\
+             s' = fs_mount s1 id l true) )).
+Proof.
+  unfold do_prepare.
+  destruct (create_snapshot s KActive key parent l) as [s1 [e|sn]] eqn:CS.
+  { left. simpl. pose proof CS as CS'. apply create_err in CS. destruct CS as [E [Sh [KD [KM [SD _]]]]].
+    exists e, E. split; [reflexivity|]. split; [exact Sh|]. split; [exact SD|]. split; [exact KD|]. split; [exact KM|reflexivity]. }
+  right. pose proof (create_ok _ _ _ _ _ _ _ CS) as OK.
+  destruct OK as [C [LK [ID [KD [E1 [_ [ND PR]]]]]]].
+  fold (created s KActive key parent l) in E1. subst s1. exists sn. split; [reflexivity|].
+  set (s1 := created s KActive key parent l). cbv zeta.
+  destruct (l_target l) as [t|] eqn:LT.
+  2:{ left. exists s1. split; [left; auto|]. split; reflexivity. }
+  assert (LK1 : lookup (meta s1) key = Some (mkI (S (seq s)) KActive parent l)).
+  { unfold s1, created. simpl. rewrite Nat.eqb_refl. reflexivity. }
+  rewrite LK1. cbn [i_id].
+  destruct mok.
+  2:{ left. exists (fs_mount s1 (S (seq s)) l false). split; [right; split; [congruence|auto]|]. split; reflexivity. }
+  right.
+  set (s2 := fs_mount s1 (S (seq s)) l true).
+  assert (M2 : meta s2 = meta s1) by reflexivity.
+  assert (C2 : closed s2 = false) by reflexivity.
+  unfold commit_active. rewrite C2, M2, LK1. cbn [i_id i_kind i_parent negb andb].
+  destruct (lookup (meta s1) t) as [j|] eqn:LT1.
+  { right. exists t, j. simpl. auto. }
+  left. exists t. split; [reflexivity|]. split; [reflexivity|]. split; [exact LT1|].
+  cbn [kind_eqb negb].
+  assert (PE : match parent with
+               | Some p => match lookup (meta s1) p with
+                           | Some pi => if kind_eqb (i_kind pi) KCommitted then None else Some EFailedPre
+                           | None => Some ENotFound
+                           end
+               | None => None
+               end = None).
+  { destruct parent as [p|]; auto. destruct PR as [pi [LP [KP _]]].
+    unfold s1, created. simpl. destruct (Nat.eqb_spec key p); [subst; congruence|].
+    rewrite LP, KP. reflexivity. }
+  rewrite PE. simpl. split; reflexivity.
+Qed.
+
+(* ---------- events of one step; unmount discipline ---------- *)
+Ltac qt := repeat (apply Forall_cons; [exact I|]); apply Forall_nil.
+Definition Pun (s' : st) (o : op) (d : dirent) : Prop :=
+  is_close o = true \/ exists id, d = DId id /\ ~ In id (ids_of (meta s')).
+
+Lemma disciplined_mono (P Q : dirent -> Prop) : (forall d, P d -> Q d) ->
+  forall l prev, disciplined P prev l -> disciplined Q prev l.
+Proof.
+  intros PQ. induction l as [|e l IH]; simpl; intros prev H; auto.
+  destruct H as [A B]. split; auto. destruct e; auto. destruct live; auto.
+Qed.
+
+Lemma selfd_mono (P Q : dirent -> Prop) l : (forall d, P d -> Q d) -> selfd P l -> selfd Q l.
+Proof. intros PQ H prev. eapply disciplined_mono; eauto. Qed.
+
+Lemma commit_log s nm key l r s' x : commit_active s nm key l r = (s', x) ->
+  log s' = log s /\ mounts s' = mounts s /\ dirs s' = dirs s /\ closed s' = closed s /\ seq s' = seq s.
+Proof.
+  intros H. destruct x as [e|].
+  - apply commit_err in H. subst. auto.
+  - apply commit_ok in H. destruct H as [_ [i [_ [_ [_ E]]]]]. subst. simpl. auto.
+Qed.
+
+Lemma mounts_of_log cbad s sn ck : exists E,
+  log (fst (mounts_of cbad s sn ck)) = log s ++ E /\ Forall quiet E /\ meta (fst (mounts_of cbad s sn ck)) = meta s.
+Proof.
+  destruct (mounts_of_spec cbad s sn ck) as [E [Sh [_ [_ [F _]]]]]. exists E.
+  destruct Sh. split; auto. split; auto. apply is_check_quiet. exact F.
+Qed.
+
+Lemma quiet_ext P s s2 s' E0 E :
+  log s2 = log s ++ E0 -> Forall quiet E0 -> log s' = log s2 ++ E -> Forall quiet E ->
+  exists E', log s' = log s ++ E' /\ selfd P E'.
+Proof.
+  intros A QA B QB. exists (E0 ++ E). split.
+  - rewrite B, A, app_assoc. reflexivity.
+  - apply selfd_quiet. apply Forall_app. auto.
+Qed.
+
+Lemma cleanup_log ub s o s' :
+  Inv s -> s' = cleanup_dirs ub s (cleanup_list s false) ->
+  exists E, log s' = log s ++ E /\ selfd (Pun s' o) E.
+Proof.
+  intros I ->. destruct (cleanup_dirs_spec ub (cleanup_list s false) s) as [E [Sh [_ [CT _]]]].
+  exists E. split; [destruct Sh; auto|].
+  eapply ctrace_selfd; [|exact CT]. intros d Q. right.
+  apply cleanup_list_in in Q. destruct Q as [Q1 Q2].
+  destruct (inv_dirs _ I d Q1) as [id [-> _]]. exists id. split; auto.
+  destruct Sh. rewrite sh_meta. exact Q2.
+Qed.
+
+Lemma create_err_log s k key parent l s' e o :
+  Inv s -> create_snapshot s k key parent l = (s', inl e) ->
+  exists E, log s' = log s ++ E /\ selfd (Pun s' o) E.
+Proof.
+  intros I CS. apply create_err in CS. destruct CS as [E [Sh [_ [_ [SD _]]]]].
+  exists E. split; [destruct Sh; auto|]. eapply selfd_mono; [|exact SD].
+  intros d [id [-> Lt]]. right. exists id. split; auto. destruct Sh. rewrite sh_meta.
+  intros F. apply in_ids in F. destruct F as [n [i [F Q]]]. apply (inv_le _ I) in F. lia.
+Qed.
+
+Lemma step_log s o : Inv s ->
+  exists E, log (fst (step s o)) = log s ++ E /\ selfd (Pun (fst (step s o)) o) E.
+Proof.
+  intros I.
+  assert (NIL : forall s', log s' = log s -> exists E, log s' = log s ++ E /\ selfd (Pun s' o) E).
+  { intros s' H. exists []. split; [rewrite app_nil_r; auto|apply selfd_nil]. }
+  destruct o; simpl.
+  - (* Prepare *)
+    pose proof (prepare_cases s key parent l mok cbad) as PC. cbv zeta in PC.
+    destruct PC as [[e [E [R [Sh [SD _]]]]]|[sn [CS [B1|[B2|B3]]]]].
+    + exists E. split; [destruct Sh; auto|]. eapply selfd_mono; [|exact SD].
+      intros d [id [-> Lt]]. right. exists id. split; auto. destruct Sh. rewrite sh_meta.
+      intros F. apply in_ids in F. destruct F as [n [i [F Q]]]. apply (inv_le _ I) in F. lia.
+    + destruct B1 as [s2 [S2 [E' _]]]. rewrite E'.
+      destruct (mounts_of_log cbad s2 sn parent) as [E2 [L2 [Q2 _]]].
+      destruct S2 as [[_ ->]|[_ [_ ->]]].
+      * eapply quiet_ext with (E0 := []); [ | |exact L2|exact Q2]; [simpl; rewrite app_nil_r; reflexivity|qt].
+      * eapply quiet_ext with (E0 := [EvMount (S (seq s)) l false]); [ | |exact L2|exact Q2]; [reflexivity|qt].
+    + destruct B2 as [t [_ [_ [_ [_ E']]]]]. rewrite E'.
+      exists [EvMount (S (seq s)) l true; EvRemoteCommit (S (seq s))]. split.
+      * simpl. rewrite <- app_assoc. reflexivity.
+      * apply selfd_quiet. qt.
+    + destruct B3 as [t [j [_ [_ [_ [_ E']]]]]]. rewrite E'.
+      exists [EvMount (S (seq s)) l true]. split; [reflexivity|]. apply selfd_quiet. qt.
+  - (* View *)
+    unfold do_view. destruct (create_snapshot s KView key parent l) as [s1 [e|sn]] eqn:CS.
+    + simpl. eapply create_err_log; eauto.
+    + apply create_ok in CS. destruct CS as [_ [_ [_ [_ [E1 _]]]]].
+      destruct (mounts_of_log cbad s1 sn parent) as [E2 [L2 [Q2 _]]].
+      eapply quiet_ext with (E0 := []); [ | |exact L2|exact Q2]; [subst s1; simpl; rewrite app_nil_r; reflexivity|qt].
+  - (* Commit *)
+    destruct (commit_active s nm key l false) as [s1 r] eqn:CA. simpl. apply NIL.
+    apply commit_log in CA. tauto.
+  - (* Mounts *)
+    unfold do_mounts. destruct (closed s); [apply NIL; reflexivity|].
+    destruct (lookup (meta s) key) as [i|]; [|apply NIL; reflexivity].
+    destruct (kind_eqb (i_kind i) KCommitted); [apply NIL; reflexivity|].
+    assert (MO : forall sn, exists E, log (fst (mounts_of cbad s sn (Some key))) = log s ++ E /\
+                   selfd (Pun (fst (mounts_of cbad s sn (Some key))) (Mounts key cbad)) E).
+    { intros sn. destruct (mounts_of_log cbad s sn (Some key)) as [E2 [L2 [Q2 _]]].
+      exists E2. split; auto. apply selfd_quiet. exact Q2. }
+    destruct (i_parent i) as [p|]; [|apply MO].
+    destruct (parents (fuel_of s) (meta s) p); try (apply NIL; reflexivity). apply MO.
+  - (* Remove *)
+    unfold do_remove. destruct (closed s); [apply NIL; reflexivity|].
+    destruct (lookup (meta s) key) as [i|] eqn:LK; [|apply NIL; reflexivity].
+    destruct (has_child (meta s) key) eqn:HC; [apply NIL; reflexivity|].
+    destruct (match i_parent i with
+              | Some p => match lookup (meta s) p with Some _ => false | None => true end
+              | None => false
+              end); [apply NIL; reflexivity|].
+    pose proof (remove_meta_inv s key i (EvMetaRemove (i_id i)) I LK HC) as I1.
+    set (s1 := emit (set_meta s (del (meta s) key)) (EvMetaRemove (i_id i))) in *.
+    destruct (async s); simpl.
+    + exists [EvMetaRemove (i_id i)]. split; [reflexivity|]. apply selfd_quiet. qt.
+    + destruct (cleanup_log ubad s1 (Remove key ubad) _ I1 eq_refl) as [E [L SD]].
+      exists ([EvMetaRemove (i_id i)] ++ E). split.
+      * rewrite L. unfold s1. simpl. rewrite <- app_assoc. reflexivity.
+      * apply selfd_app; auto. apply selfd_quiet. qt.
+  - (* Cleanup *)
+    unfold do_cleanup. destruct (closed s); [apply NIL; reflexivity|].
+    destruct (Nat.eqb (seq s) 0); [apply NIL; reflexivity|]. simpl.
+    eapply cleanup_log; eauto.
+  - (* Update *)
+    unfold do_update. destruct (closed s); [apply NIL; reflexivity|].
+    destruct (lookup (meta s) nm); apply NIL; reflexivity.
+  - (* Stat *)
+    unfold do_stat. destruct (closed s); [apply NIL; reflexivity|].
+    destruct (lookup (meta s) nm); apply NIL; reflexivity.
+  - (* Close *)
+    unfold do_close. destruct (closed s); [apply NIL; reflexivity|].
+    destruct (Nat.eqb (seq s) 0); simpl.
+    + exists [EvClose]. split; [reflexivity|]. apply selfd_quiet. qt.
+    + destruct (cleanup_dirs_spec ubad (cleanup_list (emit s EvClose) true) (emit s EvClose)) as [E [Sh [_ [CT _]]]].
+      exists ([EvClose] ++ E). split.
+      * destruct Sh. rewrite sh_log. simpl. rewrite <- app_assoc. reflexivity.
+      * apply selfd_app; [apply selfd_quiet; repeat constructor|].
+        eapply ctrace_selfd; [|exact CT]. intros d _. left. reflexivity.
+Qed.
+
+Lemma unmount_discipline s o : Inv s -> disciplined (Pun (fst (step s o)) o) None (step_events s o).
+Proof.
+  intros I. destruct (step_log s o I) as [E [L SD]]. unfold step_events. rewrite L, skipn_app_len. apply SD.
+Qed.
+
+(* ---------- mounts are handed out only for an available chain ---------- *)
+Lemma mounts_of_avail cbad s s2 sn ck E0 m :
+  log s2 = log s ++ E0 ->
+  snd (mounts_of cbad s2 sn ck) = RMounts m ->
+  forall k, ck = Some k -> forall n i,
+    on_chain (meta (fst (mounts_of cbad s2 sn ck))) k n i -> l_remote (i_labels i) = true ->
+    mounted (fst (mounts_of cbad s2 sn ck)) (i_id i) = true /\ ~ In (i_id i) cbad /\
+    In (EvCheck (i_id i) true) (skipn (length (log s)) (log (fst (mounts_of cbad s2 sn ck)))).
+Proof.
+  intros L0 R k CK n i OC RM.
+  destruct (mounts_of_spec cbad s2 sn ck) as [E [Sh [_ [M [_ [_ [T _]]]]]]].
+  destruct Sh. rewrite sh_meta in OC.
+  destruct (T m R k CK n i OC RM) as [A [B C]]. split; [|split; auto].
+  - unfold mounted in *. rewrite M. exact A.
+  - rewrite sh_log, L0, <- app_assoc, skipn_app_len. apply in_or_app. right. exact C.
+Qed.
+
+Lemma step_avail s o m : Inv s -> snd (step s o) = RMounts m ->
+  forall ck, check_key o = Some ck -> forall n i,
+    on_chain (meta (fst (step s o))) ck n i -> l_remote (i_labels i) = true ->
+    mounted (fst (step s o)) (i_id i) = true /\ ~ In (i_id i) (cbad_of o) /\
+    In (EvCheck (i_id i) true) (step_events s o).
+Proof.
+  intros I. unfold step_events. destruct o; simpl; try (intros _ ck Q; discriminate).
+  - (* Prepare *)
+    pose proof (prepare_cases s key parent l mok cbad) as PC. cbv zeta in PC.
+    destruct PC as [[e [E [R _]]]|[sn [CS [B1|[B2|B3]]]]].
+    + rewrite R. discriminate.
+    + destruct B1 as [s2 [S2 [E' R']]]. rewrite E', R'. intros R ck CK.
+      destruct S2 as [[_ ->]|[_ [_ ->]]].
+      * eapply mounts_of_avail with (E0 := []); eauto. simpl. rewrite app_nil_r. reflexivity.
+      * eapply mounts_of_avail with (E0 := [EvMount (S (seq s)) l false]); eauto.
+    + destruct B2 as [t [_ [_ [_ [R _]]]]]. rewrite R. discriminate.
+    + destruct B3 as [t [j [_ [_ [_ [R _]]]]]]. rewrite R. discriminate.
+  - (* View *)
+    unfold do_view. destruct (create_snapshot s KView key parent l) as [s1 [e|sn]] eqn:CS.
+    + simpl. discriminate.
+    + apply create_ok in CS. destruct CS as [_ [_ [_ [_ [E1 _]]]]]. intros R ck CK.
+      eapply mounts_of_avail with (E0 := []); eauto. subst s1. simpl. rewrite app_nil_r. reflexivity.
+  - (* Mounts *)
+    unfold do_mounts. destruct (closed s); [simpl; discriminate|].
+    destruct (lookup (meta s) key) as [i|]; [|simpl; discriminate].
+    destruct (kind_eqb (i_kind i) KCommitted); [simpl; discriminate|].
+    assert (MO : forall sn, snd (mounts_of cbad s sn (Some key)) = RMounts m ->
+      forall ck, Some key = Some ck -> forall n i0,
+        on_chain (meta (fst (mounts_of cbad s sn (Some key)))) ck n i0 -> l_remote (i_labels i0) = true ->
+        mounted (fst (mounts_of cbad s sn (Some key))) (i_id i0) = true /\ ~ In (i_id i0) cbad /\
+        In (EvCheck (i_id i0) true) (skipn (length (log s)) (log (fst (mounts_of cbad s sn (Some key)))))).
+    { intros sn R ck CK. eapply mounts_of_avail with (E0 := []); eauto. rewrite app_nil_r. reflexivity. }
+    destruct (i_parent i) as [p|]; [|apply MO].
+    destruct (parents (fuel_of s) (meta s) p); try (simpl; discriminate). apply MO.
+Qed.
+
+(* ---------- lower directories: the parent chain, nearest parent first ---------- *)
+Definition lower_spec (m : list (name * info)) (i : info) (sn : snap) : Prop :=
+  sn_id sn = i_id i /\ sn_kind sn = i_kind i /\
+  match i_parent i with
+  | None => sn_parents sn = []
+  | Some p => chain_ids m p (sn_parents sn)
+  end.
+
+Lemma created_lower s k key parent l sn cbad s2 m :
+  create_snapshot s k key parent l = (created s k key parent l, inr sn) ->
+  meta s2 = meta (created s k key parent l) ->
+  snd (mounts_of cbad s2 sn parent) = RMounts m ->
+  exists i, lookup (meta (fst (mounts_of cbad s2 sn parent))) key = Some i /\ m = mount_shape sn /\
+            lower_spec (meta (fst (mounts_of cbad s2 sn parent))) i sn.
+Proof.
+  intros CS M2 R. apply create_ok in CS. destruct CS as [_ [LK [ID [KD [_ [_ [_ PR]]]]]]].
+  destruct (mounts_of_spec cbad s2 sn parent) as [E [Sh [_ [_ [_ [RR _]]]]]].
+  destruct Sh. rewrite sh_meta, M2. simpl. rewrite Nat.eqb_refl.
+  eexists. split; [reflexivity|]. split.
+  - destruct RR as [RR|RR]; rewrite RR in R; inversion R; auto.
+  - unfold lower_spec. simpl. split; [auto|]. split; [auto|].
+    destruct parent as [p|]; auto. destruct PR as [pi [_ [_ PP]]].
+    apply chain_ids_cons; auto. eapply parents_chain; eauto.
+Qed.
+
+Lemma non_mount s o m : op_key o = None -> snd (step s o) <> RMounts m.
+Proof.
+  destruct o; simpl; try discriminate; intros _.
+  - destruct (commit_active s nm key l false) as [s1 [e|]]; simpl; discriminate.
+  - unfold do_remove. destruct (closed s); [simpl; discriminate|].
+    destruct (lookup (meta s) key) as [i|]; [|simpl; discriminate].
+    destruct (has_child (meta s) key); [simpl; discriminate|].
+    destruct (match i_parent i with
+              | Some p => match lookup (meta s) p with Some _ => false | None => true end
+              | None => false
+              end); [simpl; discriminate|].
+    destruct (async s); simpl; discriminate.
+  - unfold do_cleanup. destruct (closed s); [simpl; discriminate|].
+    destruct (Nat.eqb (seq s) 0); simpl; discriminate.
+  - unfold do_update. destruct (closed s); [simpl; discriminate|].
+    destruct (lookup (meta s) nm); simpl; discriminate.
+  - unfold do_stat. destruct (closed s); [simpl; discriminate|].
+    destruct (lookup (meta s) nm); simpl; discriminate.
+  - unfold do_close. destruct (closed s); [simpl; discriminate|].
+    destruct (Nat.eqb (seq s) 0); simpl; discriminate.
+Qed.
+
+Lemma step_lower s o m : Inv s -> snd (step s o) = RMounts m ->
+  exists key i sn, op_key o = Some key /\ lookup (meta (fst (step s o))) key = Some i /\
+                   m = mount_shape sn /\ lower_spec (meta (fst (step s o))) i sn.
+Proof.
+  intros I. destruct o; try (intros H; exfalso; eapply non_mount; [|exact H]; reflexivity); simpl.
+  - (* Prepare *)
+    pose proof (prepare_cases s key parent l mok cbad) as PC. cbv zeta in PC.
+    destruct PC as [[e [E [R _]]]|[sn [CS [B1|[B2|B3]]]]].
+    + rewrite R. discriminate.
+    + destruct B1 as [s2 [S2 [E' R']]]. rewrite E', R'. intros R.
+      assert (M2 : meta s2 = meta (created s KActive key parent l)).
+      { destruct S2 as [[_ ->]|[_ [_ ->]]]; reflexivity. }
+      destruct (created_lower _ _ _ _ _ _ _ _ _ CS M2 R) as [i [A [B C]]].
+      exists key, i, sn. auto.
+    + destruct B2 as [t [_ [_ [_ [R _]]]]]. rewrite R. discriminate.
+    + destruct B3 as [t [j [_ [_ [_ [R _]]]]]]. rewrite R. discriminate.
+  - (* View *)
+    unfold do_view. destruct (create_snapshot s KView key parent l) as [s1 [e|sn]] eqn:CS.
+    + simpl. discriminate.
+    + pose proof (create_ok _ _ _ _ _ _ _ CS) as OK. destruct OK as [_ [_ [_ [_ [E1 _]]]]].
+      fold (created s KView key parent l) in E1. subst s1. intros R.
+      destruct (created_lower _ _ _ _ _ _ _ _ _ CS eq_refl R) as [i [A [B C]]].
+      exists key, i, sn. auto.
+  - (* Mounts *)
+    unfold do_mounts. destruct (closed s); [simpl; discriminate|].
+    destruct (lookup (meta s) key) as [i|] eqn:LK; [|simpl; discriminate].
+    destruct (kind_eqb (i_kind i) KCommitted); [simpl; discriminate|].
+    assert (MO : forall sn, lower_spec (meta s) i sn ->
+       snd (mounts_of cbad s sn (Some key)) = RMounts m ->
+       exists key0 i0 sn0, Some key = Some key0 /\
+         lookup (meta (fst (mounts_of cbad s sn (Some key)))) key0 = Some i0 /\
+         m = mount_shape sn0 /\ lower_spec (meta (fst (mounts_of cbad s sn (Some key)))) i0 sn0).
+    { intros sn LS R. destruct (mounts_of_spec cbad s sn (Some key)) as [E [Sh [_ [_ [_ [RR _]]]]]].
+      destruct Sh. rewrite sh_meta. exists key, i, sn. split; auto. split; auto. split; auto.
+      destruct RR as [RR|RR]; rewrite RR in R; inversion R; auto. }
+    destruct (i_parent i) as [p|] eqn:P.
+    + destruct (parents (fuel_of s) (meta s) p) as [lw| |] eqn:PP; try (simpl; discriminate).
+      apply MO. unfold lower_spec. simpl. rewrite P. split; auto. split; auto.
+      eapply parents_chain; eauto.
+    + apply MO. unfold lower_spec. simpl. rewrite P. auto.
+Qed.
+
+Lemma mount_shape_lower sn :
+  match sn_parents sn with
+  | [] => mount_shape sn = MBind (sn_id sn) (kind_eqb (sn_kind sn) KView)
+  | p :: rest =>
+      (sn_kind sn = KActive /\ mount_shape sn = MOverlay (Some (sn_id sn)) (p :: rest)) \/
+      (sn_kind sn <> KActive /\ rest = [] /\ mount_shape sn = MBind p true) \/
+      (sn_kind sn <> KActive /\ rest <> [] /\ mount_shape sn = MOverlay None (p :: rest))
+  end.
+Proof.
+  unfold mount_shape. destruct (sn_parents sn) as [|p rest]; auto.
+  destruct (sn_kind sn); simpl.
+  - right. destruct rest; [left|right]; repeat split; auto; discriminate.
+  - left. auto.
+  - right. destruct rest; [left|right]; repeat split; auto; discriminate.
+Qed.
+
+(* ---------- outcome of a Prepare that names a target ---------- *)
+Lemma count_none (l : list (nat * labels)) id :
+  (forall x, In x l -> fst x <> id) -> length (filter (fun p => Nat.eqb (fst p) id) l) = 0.
+Proof.
+  induction l as [|x l IH]; simpl; intros H; auto.
+  destruct (Nat.eqb_spec (fst x) id) as [E|E].
+  - exfalso. eapply H; eauto.
+  - apply IH. intros y Hy. apply H. auto.
+Qed.
+
+Lemma prepare_target s key parent l mok cbad t :
+  Inv s -> l_target l = Some t -> t <> key ->
+  (forall j, lookup (meta s) t = Some j -> i_kind j = KCommitted) ->
+  target_outcome s (fst (step s (Prepare key parent l mok cbad))) key l mok t
+                 (snd (step s (Prepare key parent l mok cbad))).
+Proof.
+  intros I LT NE TC. simpl.
+  pose proof (prepare_cases s key parent l mok cbad) as PC. cbv zeta in PC.
+  destruct PC as [[e [E [R [Sh _]]]]|[sn [CS [B1|[B2|B3]]]]].
+  - rewrite R. simpl. left. destruct Sh; auto.
+  - destruct B1 as [s2 [S2 [E' R']]]. rewrite E', R'.
+    destruct S2 as [[Q _]|[_ [MF ->]]]; [congruence|]. subst mok.
+    pose proof (create_ok _ _ _ _ _ _ _ CS) as OK. destruct OK as [_ [LK [ID [KD _]]]].
+    set (s2 := fs_mount (created s KActive key parent l) (S (seq s)) l false).
+    destruct (mounts_of_spec cbad s2 sn parent) as [E [Sh [_ [M [_ [RR _]]]]]].
+    destruct RR as [RR|RR]; rewrite RR; simpl; [|right; auto].
+    split; [reflexivity|]. destruct Sh. rewrite sh_meta. simpl. rewrite Nat.eqb_refl.
+    eexists. split; [reflexivity|]. simpl. split; [reflexivity|]. split; [reflexivity|]. split.
+    + destruct (mounted (fst (mounts_of cbad s2 sn parent)) (S (seq s))) eqn:MM; auto.
+      apply mounted_in in MM. destruct MM as [lb MM]. rewrite M in MM. simpl in MM.
+      apply (inv_mle _ I) in MM. simpl in MM. lia.
+    + unfold mount_shape. rewrite KD, ID. destruct (sn_parents sn); simpl; eauto.
+  - destruct B2 as [t' [LT' [MT [LN [R E']]]]]. rewrite R, E'. assert (t' = t) by congruence. subst t'.
+    simpl. rewrite Nat.eqb_refl. eexists. split; [reflexivity|]. simpl. split; [reflexivity|].
+    intros _. split; [reflexivity|]. split; [|split].
+    + unfold mount_count. simpl. rewrite Nat.eqb_refl. simpl. f_equal. apply count_none.
+      intros x Hx Q. apply (inv_mle _ I) in Hx. lia.
+    + left. reflexivity.
+    + destruct (Nat.eqb_spec t key); [congruence|]. rewrite Nat.eqb_refl. apply lookup_del_eq.
+  - destruct B3 as [t' [j [LT' [MT [LS [R E']]]]]]. rewrite R, E'. assert (t' = t) by congruence. subst t'.
+    simpl in LS. destruct (Nat.eqb_spec key t); [congruence|].
+    simpl. destruct (Nat.eqb_spec key t); [congruence|]. exists j. split; [exact LS|]. split; [eauto|].
+    intros Q. congruence.
+Qed.
+
+(* ---------- a snapshot committed as remote keeps its backend mount until removed or closed ---------- *)
+Definition RInv (s : st) : Prop := forall id, In (EvRemoteCommit id) (log s) ->
+  id <= seq s /\ (closed s = false -> In id (ids_of (meta s)) -> mounted s id = true).
+
+Definition norc (E : list event) : Prop := forall id, ~ In (EvRemoteCommit id) E.
+
+Lemma norc_nil : norc [].
+Proof. intros id []. Qed.
+
+Lemma norc_app E1 E2 : norc E1 -> norc E2 -> norc (E1 ++ E2).
+Proof. intros A B id H. apply in_app_or in H. destruct H; [eapply A|eapply B]; eauto. Qed.
+
+Lemma ctrace_norc Q E : ctrace Q E -> norc E.
+Proof.
+  induction 1 as [|d lv ok t Qd CT IH]; [apply norc_nil|].
+  intros id [H|[H|H]]; try discriminate. eapply IH; eauto.
+Qed.
+
+Lemma check_norc E : Forall is_check E -> norc E.
+Proof.
+  intros F id H. rewrite Forall_forall in F. apply F in H. exact H.
+Qed.
+
+Lemma rinv_gen s s' E :
+  RInv s -> log s' = log s ++ E -> norc E -> seq s <= seq s' ->
+  (closed s' = false -> closed s = false) ->
+  (forall id, id <= seq s -> In id (ids_of (meta s')) -> In id (ids_of (meta s))) ->
+  (forall id, In id (ids_of (meta s)) -> mounted s id = true -> In id (ids_of (meta s')) -> mounted s' id = true) ->
+  RInv s'.
+Proof.
+  intros R L N Sq C Ids M id H. rewrite L in H. apply in_app_or in H. destruct H as [H|H]; [|exfalso; eapply N; eauto].
+  destruct (R id H) as [Le K]. split; [lia|]. intros C' I'. pose proof (Ids id Le I') as I0. auto.
+Qed.
+
+Lemma rinv_shrink s s' E :
+  RInv s -> shrink s s' E -> norc E ->
+  (forall x, In x (mounts s) -> In (fst x) (ids_of (meta s)) -> In x (mounts s')) -> RInv s'.
+Proof.
+  intros R Sh N K. destruct Sh. eapply rinv_gen; [exact R|exact sh_log|exact N|lia|congruence| | ].
+  - intros id _. rewrite sh_meta. auto.
+  - intros id I0 M _. apply mounted_in in M. destruct M as [lb M]. apply mounted_in. exists lb.
+    apply K; auto.
+Qed.
+
+Lemma del_ids_sub m k id : In id (ids_of (del m k)) -> In id (ids_of m).
+Proof.
+  intros H. apply in_ids in H. destruct H as [n [i [H Q]]]. apply del_in in H. apply in_ids. exists n, i. tauto.
+Qed.
+
+Lemma rinv_mounts_of cbad s sn ck : RInv s -> RInv (fst (mounts_of cbad s sn ck)).
+Proof.
+  intros R. destruct (mounts_of_spec cbad s sn ck) as [E [Sh [_ [M [F _]]]]].
+  eapply rinv_shrink; eauto using check_norc. intros x H _. rewrite M. exact H.
+Qed.
+
+Lemma rinv_create_err s k key parent l s' e :
+  Inv s -> RInv s -> create_snapshot s k key parent l = (s', inl e) -> RInv s'.
+Proof.
+  intros I R CS. apply create_err in CS. destruct CS as [E [Sh [_ [KM [_ CT]]]]].
+  eapply rinv_shrink; eauto using ctrace_norc. intros x H _. apply KM; auto. eapply inv_mle; eauto.
+Qed.
+
+Lemma rinv_created s k key parent l : closed s = false -> RInv s -> RInv (created s k key parent l).
+Proof.
+  intros C R. eapply rinv_gen with (E := []); [exact R| |apply norc_nil| | | | ]; simpl.
+  - rewrite app_nil_r. reflexivity.
+  - lia.
+  - auto.
+  - intros id Le [H|H]; [lia|exact H].
+  - auto.
+Qed.
+
+Lemma rinv_mount s id l ok : RInv s -> RInv (fs_mount s id l ok).
+Proof.
+  intros R. unfold fs_mount. destruct ok.
+  - eapply rinv_gen with (E := [EvMount id l true]); [exact R|reflexivity| |simpl; lia|auto|auto| ].
+    + intros j [H|[]]. discriminate.
+    + intros j _ M _. apply mounted_in in M. destruct M as [lb M]. apply mounted_in. exists lb. simpl. auto.
+  - eapply rinv_gen with (E := [EvMount id l false]); [exact R|reflexivity| |simpl; lia|auto|auto|auto].
+    intros j [H|[]]. discriminate.
+Qed.
+
+Lemma rinv_commit s nm key l r s' x : RInv s -> commit_active s nm key l r = (s', x) -> RInv s'.
+Proof.
+  intros R H. destruct x as [e|].
+  - apply commit_err in H. subst. exact R.
+  - apply commit_ok in H. destruct H as [_ [i [LK [_ [_ E]]]]]. subst.
+    eapply rinv_gen with (E := []); [exact R| |apply norc_nil|simpl; lia|auto| |auto]; simpl.
+    + rewrite app_nil_r. reflexivity.
+    + intros id _ [H|H].
+      * apply in_ids. exists key, i. split; auto. apply lookup_in. exact LK.
+      * eapply del_ids_sub; eauto.
+Qed.
+
+Lemma rinv_cleanup ub s : RInv s -> RInv (cleanup_dirs ub s (cleanup_list s false)).
+Proof.
+  intros R. destruct (cleanup_dirs_spec ub (cleanup_list s false) s) as [E [Sh [_ [CT K]]]].
+  eapply rinv_shrink; eauto using ctrace_norc. intros x H I0. apply K; auto.
+  intros F. apply cleanup_list_in in F. destruct F as [_ F]. contradiction.
+Qed.
+
+Lemma rinv_closed s' : (forall id, In (EvRemoteCommit id) (log s') -> id <= seq s') -> closed s' = true -> RInv s'.
+Proof. intros H C id Hid. split; [auto|]. congruence. Qed.
+
+Lemma step_rinv s o : Inv s -> RInv s -> RInv (fst (step s o)).
+Proof.
+  intros I R. destruct o; simpl.
+  - (* Prepare *)
+    pose proof (prepare_cases s key parent l mok cbad) as PC. cbv zeta in PC.
+    destruct PC as [[e [E [_ [_ [_ [_ [_ CS]]]]]]]|[sn [CS [B1|[B2|B3]]]]].
+    + eapply rinv_create_err; eauto.
+    + destruct B1 as [s2 [S2 [E' _]]]. rewrite E'. apply rinv_mounts_of.
+      pose proof (create_ok _ _ _ _ _ _ _ CS) as [C0 _].
+      destruct S2 as [[_ ->]|[_ [_ ->]]]; [|apply rinv_mount]; apply rinv_created; auto.
+    + destruct B2 as [t [_ [_ [LN [_ E']]]]]. rewrite E'.
+      set (s1 := created s KActive key parent l) in *.
+      set (s2 := fs_mount s1 (S (seq s)) l true).
+      pose proof (create_ok _ _ _ _ _ _ _ CS) as [C0 _].
+      assert (R2 : RInv s2) by (apply rinv_mount; apply rinv_created; auto).
+      intros id H. simpl in H. apply in_app_or in H. destruct H as [H|[H|[]]].
+      * assert (H2 : In (EvRemoteCommit id) (log s2)) by exact H.
+        destruct (R2 id H2) as [Le K]. split; [exact Le|]. intros _ I3. apply K; [reflexivity|].
+        simpl in I3. rewrite Nat.eqb_refl in I3. destruct I3 as [I3|I3].
+        -- subst id. simpl. left. reflexivity.
+        -- simpl. right. eapply del_ids_sub; exact I3.
+      * inversion H; subst id. split; [simpl; lia|]. intros _ _. unfold mounted, s2, fs_mount. simpl. rewrite Nat.eqb_refl. reflexivity.
+    + destruct B3 as [t [j [_ [_ [_ [_ E']]]]]]. rewrite E'.
+      pose proof (create_ok _ _ _ _ _ _ _ CS) as [C0 _]. apply rinv_mount. apply rinv_created; auto.
+  - (* View *)
+    unfold do_view. destruct (create_snapshot s KView key parent l) as [s1 [e|sn]] eqn:CS.
+    + simpl. eapply rinv_create_err; eauto.
+    + pose proof (create_ok _ _ _ _ _ _ _ CS) as OK. destruct OK as [C0 [_ [_ [_ [E1 _]]]]].
+      fold (created s KView key parent l) in E1. subst s1. apply rinv_mounts_of. apply rinv_created; auto.
+  - (* Commit *)
+    destruct (commit_active s nm key l false) as [s1 r] eqn:CA. simpl. eapply rinv_commit; eauto.
+  - (* Mounts *)
+    unfold do_mounts. destruct (closed s); [exact R|].
+    destruct (lookup (meta s) key) as [i|]; [|exact R].
+    destruct (kind_eqb (i_kind i) KCommitted); [exact R|].
+    destruct (i_parent i) as [p|]; [|apply rinv_mounts_of; exact R].
+    destruct (parents (fuel_of s) (meta s) p); try exact R. apply rinv_mounts_of; exact R.
+  - (* Remove *)
+    unfold do_remove. destruct (closed s); [exact R|].
+    destruct (lookup (meta s) key) as [i|] eqn:LK; [|exact R].
+    destruct (has_child (meta s) key) eqn:HC; [exact R|].
+    destruct (match i_parent i with
+              | Some p => match lookup (meta s) p with Some _ => false | None => true end
+              | None => false
+              end); [exact R|].
+    assert (R1 : RInv (emit (set_meta s (del (meta s) key)) (EvMetaRemove (i_id i)))).
+    { eapply rinv_gen with (E := [EvMetaRemove (i_id i)]); [exact R|reflexivity| |simpl; lia|auto| |auto]; simpl.
+      - intros j [H|[]]. discriminate.
+      - intros id _ H. eapply del_ids_sub; eauto. }
+    destruct (async s); simpl; [exact R1|]. apply rinv_cleanup. exact R1.
+  - (* Cleanup *)
+    unfold do_cleanup. destruct (closed s); [exact R|]. destruct (Nat.eqb (seq s) 0); [exact R|].
+    simpl. apply rinv_cleanup. exact R.
+  - (* Update *)
+    unfold do_update. destruct (closed s); [exact R|].
+    destruct (lookup (meta s) nm); [|exact R]. simpl.
+    eapply rinv_gen with (E := []); [exact R| |apply norc_nil|simpl; lia|auto| |auto]; simpl.
+    + rewrite app_nil_r. reflexivity.
+    + intros id _. rewrite upd_ids. auto.
+  - (* Stat *)
+    unfold do_stat. destruct (closed s); [exact R|]. destruct (lookup (meta s) nm); exact R.
+  - (* Close *)
+    unfold do_close. destruct (closed s) eqn:C; [exact R|].
+    destruct (Nat.eqb (seq s) 0); simpl.
+    + apply rinv_closed; [|reflexivity]. simpl. intros id H. apply in_app_or in H.
+      destruct H as [H|[H|[]]]; [apply R; exact H|discriminate].
+    + destruct (cleanup_dirs_spec ubad (cleanup_list (emit s EvClose) true) (emit s EvClose)) as [E [Sh [_ [CT _]]]].
+      apply rinv_closed; [|reflexivity]. destruct Sh. simpl. rewrite sh_log, sh_seq. simpl.
+      intros id H. apply in_app_or in H. destruct H as [H|H]; [|exfalso; eapply ctrace_norc; eauto].
+      apply in_app_or in H. destruct H as [H|[H|[]]]; [apply R; exact H|discriminate].
+Qed.
+
+Lemma exec_rinv os : forall s, Inv s -> RInv s -> RInv (exec s os).
+Proof.
+  induction os as [|o os IH]; intros s I R; simpl; auto.
+  apply IH; [apply step_inv; exact I|apply step_rinv; assumption].
+Qed.
+
+Lemma count_one (l : list (nat * labels)) id :
+  NoDup (map fst l) -> (exists lb, In (id, lb) l) -> length (filter (fun p => Nat.eqb (fst p) id) l) = 1.
+Proof.
+  induction l as [|x l IH]; simpl; intros ND [lb H]; [contradiction|].
+  inversion ND as [|? ? Hn ND']; subst.
+  destruct (Nat.eqb_spec (fst x) id) as [E|E].
+  - simpl. f_equal. apply count_none. intros y Hy Q. apply Hn. rewrite E, <- Q. apply in_map. exact Hy.
+  - destruct H as [H|H]; [subst x; simpl in E; congruence|]. apply IH; eauto.
+Qed.
+
+Lemma remote_has_mount a os id :
+  let s := exec (init a) os in
+  In (EvRemoteCommit id) (log s) -> closed s = false -> In id (ids_of (meta s)) ->
+  mount_count s id = 1 /\ In (DId id) (dirs s).
+Proof.
+  intros s H C I0.
+  assert (I : Inv s) by apply reach_inv.
+  assert (R : RInv s). { apply exec_rinv; [apply inv_init|]. intros j []. }
+  destruct (R id H) as [_ K]. specialize (K C I0). split.
+  - unfold mount_count. apply count_one; [apply inv_mnd; exact I|]. apply mounted_in. exact K.
+  - apply in_ids in I0. destruct I0 as [n [i [F Q]]]. subst id. eapply inv_has; eauto.
+Qed.
+
